@@ -263,6 +263,7 @@ package nbhttp
 
 //@ ghost local Parser.gCache : Int
 //@ ghost local Parser.gUp : Bool
+//@ ghost local Parser.gSrcH : Int
 //@ ghost local Parser.gRow : (Array Int Int)
 //@ pred ParseCache(p *Parser, offset int, n int, cache0 *[]byte, n0 int, rl0 int) := (cache0 != nil ==> p.bytesCached == cache0 || !liveP[cache0]) && (offset == 0 ==> p.bytesCached == nil && n == n0) && (offset > 0 ==> p.bytesCached != nil && len(*p.bytesCached) == n && (rl0 > 0 ==> n <= rl0)) && p.Engine.ReadLimit == rl0
 //@ pred ParserInv(p *Parser) := p.Processor != nil && p.Engine != nil && p.status == "" && (p.state != stateBodyTrailerHeaderValue ==> p.headerValue == "") && (p.state != stateClose && p.bytesCached != nil ==> liveP[p.bytesCached] && p.bytesCached <= top && len(*p.bytesCached) > 0) && (p.state == stateBodyContentLength ==> p.contentLength > 0) && (p.state == stateBodyChunkData ==> p.chunkSize > 0)
@@ -353,7 +354,10 @@ package nbhttp
 //@   at before:Malloc#2 assert ask2: arg_size == len(data) - start && arg_size > 0   // prop C08
 //@   note the upgraded protocol's parser does not reach into the HTTP parser that feeds it
 //@   at entry ghost { p.gUp = false; p.gRow = bytes_row(base(data)) }
-//@   at call:Append#1 ghost { p.gRow = bytes_row(base(*result)) }
+//@   at call:Append#1 ghost { p.gRow = bytes_row(base(*result)); p.gSrcH = result }
+//@   note no read after free (C11): once the new input has been appended to the cache, data aliases the cache's buffer; whenever the rest is copied out of data, that buffer must still be owned (not yet given back)
+//@   at entry ghost { p.gSrcH = 0 }
+//@   at before:copy#* assert srclive: p.gSrcH != 0 && base(arg_src) == base(box(p.gSrcH, "[]byte")) ==> liveP[p.gSrcH]   // prop C11
 //@   at before:Parse#1 ghost { p.gCache = p.bytesCached; p.gUp = true }
 //@   at call:Parse#1 assume upkeep: p.bytesCached == p.gCache
 //@   loop 1
@@ -361,6 +365,7 @@ package nbhttp
 //@     invariant bytes_row(base(data)) == p.gRow && (offset > 0 ==> base(*p.bytesCached) == base(data) && off(*p.bytesCached) == off(data))
 //@     invariant p.ParserCloser != nil || ((p.state == stateBodyContentLength ==> offset < p.contentLength) && (p.state == stateBodyChunkData ==> offset < p.chunkSize))
 //@     invariant ParseCache(p, offset, len(data), old(p.bytesCached), old(len(data)), old(p.Engine.ReadLimit))
+//@     invariant (offset > 0 ==> p.gSrcH == p.bytesCached) && (offset == 0 ==> p.gSrcH == 0)
 //@   loop 2
 //@     invariant 0 <= start && start <= i && i <= len(data) && ParserInv(p) && p.state != stateClose
 //@     invariant bytes_row(base(data)) == p.gRow && (offset > 0 ==> base(*p.bytesCached) == base(data) && off(*p.bytesCached) == off(data))
@@ -369,6 +374,7 @@ package nbhttp
 //@     carried i start   // prop C06
 //@     decreases len(data) - i
 //@     invariant ParseCache(p, offset, len(data), old(p.bytesCached), old(len(data)), old(p.Engine.ReadLimit))
+//@     invariant (offset > 0 ==> p.gSrcH == p.bytesCached) && (offset == 0 ==> p.gSrcH == 0)
 
 //@ fieldfunc nbhttp.Parser.onClose
 //@   note the close callback installed by the engine or the upgrader: leaves the parser's cache and pooled buffers alone
